@@ -369,16 +369,16 @@ func c19Invalid(c *fw.Ctx, i int) {
 	case 0:
 		lv.RTPStreamCount, kind = 0, "count-0"
 	case 1:
-		lv.RTPStreamCount, kind = 5, "count-5"
+		lv.RTPStreamCount, kind = r.Pick(5, 5, 6, 256, 257, 260, 65537, 1<<32+1), "count-5-or-more"
 	case 2:
 		lv.RTPStreamCount, kind = -1, "count-negative"
 	case 3:
-		lv.RTPStreamID, kind = lv.RTPStreamCount+r.Intn(3), "rid-ge-count"
+		lv.RTPStreamID, kind = lv.RTPStreamCount+r.Pick(0, 1, 2, 256, 65536, 1<<32), "rid-ge-count"
 	case 4:
 		lv.RTPStreamID, kind = -1-r.Intn(3), "rid-negative"
 	case 5:
 		k := r.Intn(len(lv.ActiveSpatialLayer))
-		lv.ActiveSpatialLayer[k].SpatialID, kind = r.Pick(4, 5, -1, 255), "spatial-id-out-of-range"
+		lv.ActiveSpatialLayer[k].SpatialID, kind = r.Pick(4, 5, -1, 255, 256, 257, 259, 65536, 1<<32, -256), "spatial-id-out-of-range"
 	case 6:
 		k := r.Intn(len(lv.ActiveSpatialLayer))
 		dup := lv.ActiveSpatialLayer[k]
@@ -391,10 +391,15 @@ func c19Invalid(c *fw.Ctx, i int) {
 		lv.ActiveSpatialLayer[k].TargetBitrates, kind = nil, "temporal-layers-0"
 	case 8:
 		k := r.Intn(len(lv.ActiveSpatialLayer))
-		lv.ActiveSpatialLayer[k].TargetBitrates, kind = []int{1, 2, 3, 4, 5}, "temporal-layers-5"
+		// five and more: also the counts that come back into 1..4 when a narrower integer holds them
+		nt := r.Pick(5, 5, 6, 8, 255, 256, 257, 258, 259, 260, 261, 513, 65537, 65540)
+		lv.ActiveSpatialLayer[k].TargetBitrates, kind = make([]int, nt), "temporal-layers-5-or-more"
+		for q := range lv.ActiveSpatialLayer[k].TargetBitrates {
+			lv.ActiveSpatialLayer[k].TargetBitrates[q] = q
+		}
 	default:
 		k := r.Intn(len(lv.ActiveSpatialLayer))
-		lv.ActiveSpatialLayer[k].RTPStreamID, kind = r.Pick(lv.RTPStreamCount, 4, -1, 7), "layer-stream-id-out-of-range"
+		lv.ActiveSpatialLayer[k].RTPStreamID, kind = r.Pick(lv.RTPStreamCount, 4, -1, 7, 256, 257, 65536, 1<<32, -256), "layer-stream-id-out-of-range"
 	}
 	var got []byte
 	var err error
